@@ -179,7 +179,12 @@ def _worker_task(task):
                 res["witnesses"].append(rec)
             res["stats"]["witness_replays"] = res["stats"].get("witness_replays", 0) + 1
             if tuple(nat) != so:
-                res["mismatches"].append(dict(inputs=_jsonable(inputs), symbolic=list(so), native=list(nat)))
+                if getattr(e, "path_model_nondet", False):
+                    # the path took a branch of an over-approximating library model (e.g. the direction of an exact
+                    # rounding tie) that the native run did not realise: not an interpreter mismatch
+                    res["stats"]["unrealised_model_choices"] = res["stats"].get("unrealised_model_choices", 0) + 1
+                else:
+                    res["mismatches"].append(dict(inputs=_jsonable(inputs), symbolic=list(so), native=list(nat)))
 
         if seed:
             rnd.shuffle(prefixes)
@@ -196,6 +201,9 @@ def _worker_task(task):
                 confirmed = nat == ("escaped", v["site"].split(":", 1)[1])
             else:
                 confirmed = nat[0] == "violation" and nat[1] == v["site"].split(":", 1)[0]
+            if not confirmed and v.get("model_nondet"):
+                res["stats"]["unrealised_model_choices"] = res["stats"].get("unrealised_model_choices", 0) + 1
+                continue            # a candidate that exists only under the unrealised branch of a library model
             res["violations"].append(dict(site=v["site"], known=v["known"], inputs=_jsonable(inputs), case=case,
                                           native=list(nat), confirmed=confirmed))
         res["sites"] = dict(eng.sites_reached)
